@@ -33,8 +33,16 @@ std::string dimsToStr(const std::vector<size_t>& d) { std::ostringstream o; o <<
 
 static std::string upperS(std::string s) { for (size_t i = 0; i < s.size(); ++i) s[i] = (char)toupper((unsigned char)s[i]); return s; }
 
+size_t paramSectionBytes(const Snap& s) {
+    size_t est = 4;
+    for (size_t g = 0; g < s.groups.size(); ++g) { if (s.groups[g].name.empty()) continue; est += 5 + s.groups[g].name.size() + s.groups[g].desc.size();
+        for (size_t q = 0; q < s.groups[g].params.size(); ++q) { const SParam& P = s.groups[g].params[q]; size_t prod = 1; for (size_t i = 0; i < P.dims.size(); ++i) prod *= P.dims[i];
+            est += 7 + P.name.size() + P.desc.size() + ((P.dims.size() == 1 && P.dims[0] == 1) ? 0 : P.dims.size()) /* a scalar is written with 0 dimensions */ + (P.type == ezc3d::CHAR || P.type == ezc3d::BYTE ? prod : P.type == ezc3d::FLOAT ? 4 * prod : 2 * prod); } }
+    return est;
+}
+
 Hist::Hist(const Opts& o_, long idx_, CaseLog& log_) : o(o_), idx(idx_), log(log_), rng(o_.seed, (uint64_t)idx_ * 7919 + fnv(o_.profile)),
-    wild(o_.wild || (o_.geti("wildpct", 0) > 0 && (long)(Rng(o_.seed, (uint64_t)idx_ * 13 + 5).below(100)) < o_.geti("wildpct", 0))), managedEdited(false), declaredByName(true), external(false), specialFloats(false), analogIncomplete(false), columnOverGaps(false), columnOverGapsReported(false), pendingUnspecified(false), hadUnspecified(false), fileOffSpec(false), beyondInt16(false), caseVariantNames(false), offSpec(false), namedChannels(false), nSaves(0) {
+    wild(o_.wild || (o_.geti("wildpct", 0) > 0 && (long)(Rng(o_.seed, (uint64_t)idx_ * 13 + 5).below(100)) < o_.geti("wildpct", 0))), bulkDone(false), managedEdited(false), declaredByName(true), external(false), specialFloats(false), analogIncomplete(false), columnOverGaps(false), columnOverGapsReported(false), pendingUnspecified(false), hadUnspecified(false), fileOffSpec(false), beyondInt16(false), caseVariantNames(false), offSpec(false), namedChannels(false), nSaves(0) {
     char b[600]; snprintf(b, sizeof b, "%s/tmp_%ld", o.out.c_str(), idx); tmp = b; mkdir(tmp.c_str(), 0755);
 }
 
